@@ -643,6 +643,12 @@ theorem corner_elevation_source_shape :
     Gen.Viewshed.cornerElevNanFallback = "inrast[1][event_col]" ∧
     Gen.Viewshed.cornerElevMean = "(elev1 + elev2 + elev3 + elev4) / 4.0" := by decide
 
+/-- the key of every cell other than the observer's -- its squared map distance -- is positive for non-degenerate cell sizes:
+    no status node ever collides with the permanent dummy (key 0), as `leaf_insert_preserves` requires -/
+theorem key_positive_off_observer (ew ns : Rat) (vr vc row col : Int) (hew : ew ≠ 0) (hns : ns ≠ 0)
+    (hne : row ≠ vr ∨ col ≠ vc) : 0 < key ew ns vr vc row col :=
+  key_pos ew ns vr vc row col hew hns hne
+
 /-- **the event order is a sort**: the model of `np.lexsort((type, bearing))` -- bearing in [0, 2π) compared exactly by half
     plane and cross product, ties by the type code EXIT < CENTER < ENTER -- returns a permutation of the generated events
     in which every earlier event is `≤` every later one (the comparison is a total preorder on ALL events) -/
